@@ -157,7 +157,7 @@ func c18pHas(xs []uint16, x uint16) bool {
 
 func TestVerifC18Pipeline(t *testing.T) {
 	r := vrt.Start("C18")
-	maxExtra := vrt.Pick(r, 2, 3)
+	maxExtra := vrt.Pick(r, 2, 2)
 	r.Bound("pipeline_burst", fmt.Sprintf("limit+%d queries", maxExtra))
 	vrt.Part(r, "pipeline", func(emit func(c18pCase)) {
 		for limit := uint(1); limit <= 3; limit++ {
